@@ -58,8 +58,12 @@ RULES = {
     "Function, GraphView, Shape: `len()` counts nodes / dimensions) is tested with `is None`, never by truthiness: a subgraph "
     "without nodes (a branch that only returns a captured value or an initializer) and a rank-0 shape are falsy, so a writer "
     "that skips `not value` drops the whole subgraph - its name, inputs, outputs, initializers",
+    "R15": "every key of an external-data record is carried: the keys onnx itself accepts in `TensorProto.external_data` (read from the "
+    "installed onnx sources: the attributes `ExternalDataInfo.__init__` initialises) are each read by deserialize_tensor from its "
+    "`ExternalDataInfo` view and written back by the serializer's external branch - a key the reader ignores is a storage field that "
+    "disappears in a round trip (one reviewed exemption: `basepath`, a transient loader key that onnx strips on save)",
 }
-FLOORS = {"R1": 100, "R2": 40, "R3": 30, "R4": 1, "R5": 40, "R6": 20, "R7": 6, "R8": 3, "R9": 3, "R10": 10, "R11": 1, "R12": 12, "R13": 2, "R14": 10}
+FLOORS = {"R1": 100, "R2": 40, "R3": 30, "R4": 1, "R5": 40, "R6": 20, "R7": 6, "R8": 3, "R9": 3, "R10": 10, "R11": 1, "R12": 12, "R13": 2, "R14": 10, "R15": 4}
 EXPLANATION = (
     "Types every proto expression of serde.py through parameter annotations and the parsed onnx-ml.proto schema, "
     "collects per message the fields the deserializer reads and the serializer writes (attribute access, HasField, "
@@ -909,6 +913,96 @@ def rule_r14(ctx):
     ctx.require(n >= 10, f"only {n} typed truthiness tests found in serde")
 
 
+_EXTERNAL_KEY_EXEMPT = {"basepath": "transient key written by onnx's own loader helpers and stripped again when a model is saved; not part of the stored form"}
+
+
+def _onnx_external_keys(ctx) -> set[str]:
+    """Keys of an external_data record according to the installed onnx: attributes initialised by ExternalDataInfo.__init__
+    (the source file is parsed, not imported)."""
+    import importlib.util
+    import os
+
+    spec = importlib.util.find_spec("onnx")
+    ctx.require(spec is not None and spec.origin, "onnx package sources not found")
+    path = os.path.join(os.path.dirname(spec.origin), "external_data_helper.py")
+    ctx.require(os.path.exists(path), "onnx/external_data_helper.py not found")
+    with open(path, encoding="utf-8") as fh:
+        tree = ast.parse(fh.read())
+    keys: set[str] = set()
+    for c in tree.body:
+        if isinstance(c, ast.ClassDef) and c.name == "ExternalDataInfo":
+            for fn in c.body:
+                if isinstance(fn, ast.FunctionDef) and fn.name == "__init__":
+                    for n in ast.walk(fn):
+                        if isinstance(n, ast.Assign):
+                            for t in n.targets:
+                                if isinstance(t, ast.Attribute) and isinstance(t.value, ast.Name) and t.value.id == "self":
+                                    keys.add(t.attr)
+    ctx.require(len(keys) >= 3, f"ExternalDataInfo.__init__: only {sorted(keys)} found")
+    return keys
+
+
+def rule_r15(ctx):
+    keys = _onnx_external_keys(ctx)
+    ctx.tables["external_data keys (onnx)"] = sorted(keys)
+    rd = ctx.repo.func(f"{SERDE}:deserialize_tensor")
+    views = {n.targets[0].id for n in own_nodes(rd.node) if isinstance(n, ast.Assign) and isinstance(n.targets[0], ast.Name)
+             and isinstance(n.value, ast.Call) and (dotted_of(n.value.func) or "").endswith("ExternalDataInfo")}
+    ctx.require(bool(views), "deserialize_tensor: ExternalDataInfo view not found")
+    read = {x.attr for x in own_nodes(rd.node) if isinstance(x, ast.Attribute) and isinstance(x.value, ast.Name) and x.value.id in views}
+    # the writer: constant keys stored into entries added to <proto>.external_data
+    written: set[str] = set()
+    wsite = None
+    for f in ctx.repo.module(SERDE).all_funcs:
+        if isinstance(f.node, ast.Lambda):
+            continue
+        if not any(isinstance(c.func, ast.Attribute) and c.func.attr == "add" and norm(c.func.value).endswith(".external_data") for c in calls_in(f)):
+            continue
+        wsite = f
+        for n in own_nodes(f.node):
+            v = None
+            if isinstance(n, ast.Assign) and isinstance(n.targets[0], ast.Attribute) and n.targets[0].attr == "key":
+                v = n.value
+            elif isinstance(n, ast.Call) and isinstance(n.func, ast.Attribute) and n.func.attr == "add" and norm(n.func.value).endswith(".external_data"):
+                v = next((k.value for k in n.keywords if k.arg == "key"), None)
+            if v is not None:
+                if isinstance(v, ast.Constant) and isinstance(v.value, str):
+                    written.add(v.value)
+                elif isinstance(v, ast.Name):
+                    # the loop variable of `for k, v in {…}.items()` / `for k in (…)`
+                    for lp in (x for x in own_nodes(f.node) if isinstance(x, ast.For)):
+                        tg = lp.target.elts[0] if isinstance(lp.target, ast.Tuple) and lp.target.elts else lp.target
+                        if isinstance(tg, ast.Name) and tg.id == v.id:
+                            it = lp.iter.func.value if isinstance(lp.iter, ast.Call) and isinstance(lp.iter.func, ast.Attribute) and lp.iter.func.attr == "items" else lp.iter
+                            if isinstance(it, ast.Name):
+                                # a table bound once to a local
+                                binds = [a.value for a in own_nodes(f.node) if isinstance(a, (ast.Assign, ast.AnnAssign)) and a.value is not None
+                                         and any(isinstance(t, ast.Name) and t.id == it.id for t in (a.targets if isinstance(a, ast.Assign) else [a.target]))]
+                                if len(binds) == 1:
+                                    it = binds[0]
+                            if isinstance(it, ast.Call) and dotted_of(it.func) == "dict" and not it.args:
+                                written |= {k.arg for k in it.keywords if k.arg}
+                            if isinstance(it, ast.Dict):
+                                written |= {k.value for k in it.keys if isinstance(k, ast.Constant) and isinstance(k.value, str)}
+                            elif isinstance(it, (ast.Tuple, ast.List, ast.Set)):
+                                written |= {k.value for k in it.elts if isinstance(k, ast.Constant) and isinstance(k.value, str)}
+    ctx.require(wsite is not None and bool(written), "serializer: writer of external_data entries not found")
+    for k in sorted(keys):
+        if k in _EXTERNAL_KEY_EXEMPT:
+            ctx.ob("R15", f"external_data key `{k}`: exempt", True, nontrivial=False, how=_EXTERNAL_KEY_EXEMPT[k])
+            continue
+        ok = k in read and k in written
+        where = rd if k not in read else wsite
+        ctx.check("R15", f"external_data key `{k}` is read by the deserializer and written by the serializer", ok, where, where.node,
+                  f"the key `{k}` of an external-data record is {'not read by deserialize_tensor' if k not in read else 'not written by the serializer'}: "
+                  f"a tensor stored with `{k}` comes back without it (proto -> IR -> proto loses a storage field)",
+                  how="keys of onnx's ExternalDataInfo ↔ attributes read off the view ↔ constant keys the serializer stores", construct=f"external_data key {k} dropped")
+    for k in sorted((read | written) - keys):
+        ctx.check("R15", f"external_data key `{k}` is known to onnx", False, wsite, wsite.node,
+                  f"`{k}` is read or written as an external-data key but onnx does not accept it (it is ignored, with a warning, by ExternalDataInfo)",
+                  how="key sets compared", construct=f"external_data key {k} unknown")
+
+
 def run(ctx):
     rule_r14(ctx)
     rule_r13(ctx)
@@ -925,3 +1019,4 @@ def run(ctx):
     rule_r3(ctx)
     rule_r4(ctx)
     rule_r5(ctx)
+    rule_r15(ctx)
